@@ -77,7 +77,10 @@ def check_results(ctx: Ctx, results, exprs=None, meta=None):
 
 def files(ctx: Ctx):
     n = ctx.n(120, 1500)
-    designs = [gen.gen_sge(ctx.rng, {'p_bg': 0.0, 'allow_junction_pam': False, 'p_softmask': 0.5}) for _ in range(n)]
+    # a third of the designs are built to have a no-op row (coding PAM edits, --include-no-op-oligo), mostly with --revcomp-minus-strand
+    designs = [gen.gen_sge(ctx.rng, dict({'p_bg': 0.0, 'allow_junction_pam': False, 'p_softmask': 0.5},
+                                         **({'p_no_op': 1.0, 'p_revcomp': 0.7, 'p_pam': 1.0, 'p_gtf': 1.0, 'n_pam': [2, 3, 4]} if i % 3 == 0 else {})))
+               for i in range(n)]
     designs += [gen.gen_cdna(ctx.rng, {}) for _ in range(n // 4)]
     results = rowcheck.run_designs(designs)
     rowcheck.model_rows(ctx, results, 'sequence columns', fields=['ref', 'mseq_no_adapt', 'mseq', 'oligo_length'])
